@@ -121,6 +121,7 @@ class IMAPServer:
         async with AsyncExitStack() as stack:
             connection_exit.set(stack)
             stack.enter_context(closing(conn))
+            stack.enter_context(closing(state))
             await conn.run(state)
 
 
